@@ -33,6 +33,22 @@ def contracts(env):
 
 
 def extra(rep, tier, seed, budget):
+    # the queue collection keys its queues by the version tuple parsed back from the q/ and q/w/ names: the
+    # round trip of those names (bounded/c18_names.py) is a precondition of the evaluation
+    from bounded import c18_names as _n
+    from specs import c18 as _c18
+    from pyvc.cli import write_replay as _wr
+    _r = _n.run(tier, seed)
+    rep.bounded.append({k: _r.get(k) for k in ('name', 'scope', 'cases', 'distinct_nontrivial', 'exhaustive', 'wall_s')})
+    _seen = set()
+    for _f in _r.get('failures', []):
+        if not str(_f.get('clause', '')).startswith('roundtrip') or _c18.only_key_case(_f):
+            continue        # (letter case of ticket keys: not claimed, see C18)
+        _k = 'bounded:c18_names:%s' % _f.get('signature', _f.get('clause'))
+        if _k in _seen or len(_seen) >= 3:
+            continue
+        _seen.add(_k)
+        rep.violations.append({'key': _k, 'what': 'queue name round trip: %s' % _f.get('clause'), 'replay': _wr(rep.pid, _k, _f), 'input': _f.get('case'), 'noinput': False})
     from bounded import c05_queue
     integrate(rep, c05_queue.run(tier, seed), clauses=None)
 
@@ -63,6 +79,14 @@ def integrate(rep, res, clauses=None):
         seen.add(k)
         path = write_replay(rep.pid, k, {'signature': sig, 'count': res['failure_signatures'][sig]})
         rep.violations.append({'key': k, 'what': 'queue evaluation: %s (%d cases)' % (sig, res['failure_signatures'][sig]),
+                               'replay': path, 'input': None, 'noinput': False})
+    if res.get('status_abstraction_sound') is False:
+        # the code no longer treats every non-SUCCESSFUL state alike (it compared a status with something else
+        # than SUCCESSFUL): one pattern per matrix does not stand for its 3^k assignments any more, and a state
+        # the code forgot would be merged
+        k = 'bounded:c05_queue:status_states_distinguished'
+        path = write_replay(rep.pid, k, {'comparisons': res.get('rule', '')[-300:]})
+        rep.violations.append({'key': k, 'what': 'queue evaluation compares build states with something else than SUCCESSFUL',
                                'replay': path, 'input': None, 'noinput': False})
     for kind in ('harness_crashes', 'harness_anomalies'):
         for c in (res.get(kind) or [])[:2]:
